@@ -263,4 +263,41 @@ theorem exInf_wf : WF exInf := by
   · simp [exInf]
   · simp [exInf, isFin]
 
+/-! ### the same with the free variable CALLED `$sl_y` (an internal prefix): harmless, it only occurs as `$p$sl_y`, `$m$sl_y` -/
+
+def exFreeSl : LinModel (Ext ℚ) :=
+  { optType := .min, objective := [.fin 1], offset := .fin 0, vars := ["$sl_y"],
+    domain := [{ name := "$sl_y", ty := .real .ninf .pinf, usage := 1 }],
+    rows := [{ name := "", coeffs := [.fin 1], cmp := .ge, rhs := .fin (-3) }] }
+
+def exFreeSlStd : StdModel (Ext ℚ) :=
+  { vars := ["$p$sl_y", "$m$sl_y", "$su_1"], objective := [.fin 1, .fin (-1), .fin 0], offset := .fin 0, flip := false,
+    rows := [{ coeffs := [.fin (-1), .fin 1, .fin 1], rhs := .fin 3 }] }
+
+theorem exFreeSl_std : standardize exFreeSl = .ok exFreeSlStd := by rw [fieldExact_rat]; decide +kernel
+
+theorem exFreeSl_wf : WF exFreeSl := by
+  refine ⟨rfl, ?_, ?_, ?_, ?_, ?_, ?_, ?_, ?_, ?_, Or.inl rfl⟩
+  · simp [exFreeSl, isFin]
+  · simp [exFreeSl, isFin]
+  · simp [exFreeSl]
+  · simp [exFreeSl, isFin]
+  · simp [exFreeSl]
+  · simp [exFreeSl, lookup]
+  · simp [exFreeSl, isContinuous]
+  · simp [exFreeSl, isFin]
+  · simp [exFreeSl]
+
+theorem exFreeSl_point : StdFeasible exFreeSlStd [0, 3, 0] := by
+  refine ⟨rfl, by simp, ?_⟩
+  intro r hr
+  simp only [exFreeSlStd, List.mem_singleton] at hr
+  subst hr
+  simp [rowVal, toK]
+
+theorem exFreeSl_flags : flags exFreeSl = [true] := by simp [flags, tys, tyOf, lookup, exFreeSl, isFree]
+
+theorem exFreeSl_preimage : preimage exFreeSl [0, 3, 0] = [-3] := by
+  simp [preimage, exFreeSl_flags, countF, countT, back]
+
 end Rooc.ComposeSimplex
